@@ -479,6 +479,8 @@ class ShortTimeFourierTransformFrameComputer(LinearFilterBankFrameComputer):
             frame_length = self._frame_length
         frame_shift = self._frame_shift
         num_frames = max(0, (total_len - frame_length) // frame_shift + 1)
+        if noncausal_first and total_len < self._frame_length // 2 + 1:
+            num_frames = 0  # too short for compute_full to yield anything
         coeffs = np.empty((num_frames, self.num_coeffs), dtype=self._chunk_dtype)
         for frame_idx in range(num_frames):
             frame_start_idx = frame_idx * frame_shift
@@ -520,7 +522,7 @@ class ShortTimeFourierTransformFrameComputer(LinearFilterBankFrameComputer):
             self._compute_frame(frame, coeffs[frame_idx])
             self._first_frame = False
         rem_len = total_len - num_frames * frame_shift
-        assert rem_len < frame_length
+        assert rem_len < self._frame_length
         # keep the last frame_length samples seen, not only the remainder: finalize
         # may have to reflect more than rem_len samples past the end of the signal
         if chunk_len >= self._frame_length:
@@ -548,6 +550,8 @@ class ShortTimeFourierTransformFrameComputer(LinearFilterBankFrameComputer):
             num_frames -= pad_left
             pad_left = 0
         num_frames //= frame_shift
+        if self._first_frame and buf_len < frame_length // 2 + 1:
+            num_frames = 0  # too short for compute_full to yield anything
         if num_frames >= 1:
             pad_right = (num_frames - 1) * frame_shift + frame_length - buf_len
             pad_right -= pad_left
